@@ -63,7 +63,7 @@ def generate(rng, tier="quick"):
     if rng.chance(0.2):
         scn["twin_on"] = rng.subset([f for f in fes if f != "qcconfig"], 0.5, at_least=1)
     if not scn["share_config"] and rng.chance(0.12):
-        # run, Config.add(more), run again on the same Config object
+        # run, Config.add(more), run again on the same Config object (exclusive with user calls below)
         cands = [f for f in fes if f != "qcconfig" and f not in scn.get("twin_on", [])]
         if cands:
             extra = wl.gen_config(rng, tbl, max_ctx=2, max_tests=2)
@@ -74,7 +74,23 @@ def generate(rng, tier="quick"):
             extra["contexts"] = [c for c in extra["contexts"] if pl.context_key(c)[:2] not in taken]
             if extra["contexts"]:
                 scn["add_after_run"] = {"config": extra, "on": rng.subset(cands, 0.6, at_least=1)}
-    if "add_after_run" not in scn and not scn["share_config"] and cfg["carrier"] in ("dict", "odict") and cfg.get("build", "direct") == "direct" and rng.chance(0.12):
+    if "add_after_run" not in scn and rng.chance(0.12):
+        # the user's own check functions, handed over as Call objects: same name and module, different signatures
+        taken = {pl.context_key(c)[:2] for c in cfg["contexts"]}
+        wins = [w for w in wl._mixed(rng, wl.boundary_points(rng, tbl["times"]), 4) if (pl.bound_ns(w, "starting"), pl.bound_ns(w, "ending")) not in taken and not tbl.get("no_time")]
+        uc, seen_w = [], set()
+        for w in wins:
+            key = (w.get("starting"), w.get("ending"))
+            if key in seen_w or key == (None, None):
+                continue
+            seen_w.add(key)
+            uc.append({"sid": rng.pick(list(tbl["cols"])), "variant": rng.pick(("inp", "inp_z", "inp_t", "all")), "tag": rng.randint(0, 4), "window": w})
+        if len(uc) >= 2:
+            scn["user_calls"] = uc[:3]
+            cfg["build"] = "direct"
+            scn.pop("alt_config", None)
+            scn.pop("alt_on", None)
+    if "user_calls" not in scn and "add_after_run" not in scn and not scn["share_config"] and cfg["carrier"] in ("dict", "odict") and cfg.get("build", "direct") == "direct" and rng.chance(0.12):
         # run, replace one call of config.calls in place (same test, other parameters), run again
         cands = [f for f in fes if f != "qcconfig" and f not in scn.get("twin_on", [])]
         flat = [(ci, e) for ci, c in enumerate(cfg["contexts"]) for e in _nested_order(c["entries"])]
@@ -159,7 +175,10 @@ def execute(scn):
             V.append(violation(PROP, "run", "config", exc_signature(e), "Config(...) raised"))
             return finish(scn, V, stats, None, {})
     # reference execution first (direct calls on plain arrays)
-    exps = {"main": rp.annotate_expected(scn, arrays)}
+    main_cfg = pl.with_user_calls(cfg, scn["user_calls"]) if scn.get("user_calls") else cfg
+    exps = {"main": rp.annotate_expected(scn, arrays, main_cfg)}
+    if scn.get("user_calls"):
+        bump("user_functions_in_call_objects")
     if scn.get("alt_config"):
         exps["alt"] = rp.annotate_expected(scn, arrays, scn["alt_config"])
     if scn.get("edit_after_run"):
